@@ -165,6 +165,17 @@ CHECKS = {
    design_ref='DESIGN.md 6 (C14)',
    note='Only evolution SQL is previewed by the command; model creation and migrations are outside the comparison.',
    technique='TLA+ model of two independent lowerings with set-iteration nondeterminism + TLC; subprocess replay across hash seeds'),
+ 'C15': dict(
+   engine='purge', category='model_checking',
+   text=('Purge.tla: three apps whose table names are prefixes of each other and every subset of four optional relations (own M2M, '
+         'M2M into another app, FK and M2M from another app); actions uninstall / drop a model with a DeleteModel evolution / '
+         'upgrade with or without --purge; TLC checks NothingLiveDropped, NoPurgeKeepsEverything, PurgeDropsExactlyOwned, '
+         'SigMatchesAfterPurge over every operation sequence. The sequences are replayed on a real project with rows in every table '
+         '(M2M tables included), alternating `evolve --execute [--purge]` and the Evolver API; after every upgrade the table set, the '
+         'schema and rows of surviving tables and the stored signature are compared with the specification.'),
+   design_ref='DESIGN.md 6 (C15)',
+   note='Project layouts are the 16 relation subsets of one three-app universe; hand-written DeleteApplication evolutions are exercised only through the purge task.',
+   technique='TLA+ model of app/table ownership and purge + TLC; operation sequences replayed on a real project'),
 }
 
 NOT_YET = {
@@ -214,6 +225,8 @@ def main():
              'kind_free_text': 'values of Codec.tla concretised: storage round trip through Version rows; hint text exec()'},
             {'name': 'preview', 'path': 'harness/engines/preview.py', 'serves_properties': ['C14'],
              'kind_free_text': 'pending upgrades run as evolve --sql / --execute / --hint in fresh interpreters under several hash seeds'},
+            {'name': 'purge', 'path': 'harness/engines/purge.py', 'serves_properties': ['C15'],
+             'kind_free_text': 'uninstall / DeleteModel / purge sequences from Purge.tla replayed on a three-app project'},
             {'name': 'refs', 'path': 'harness/engines/refs.py', 'serves_properties': ['C11'],
              'kind_free_text': 'TLC-enumerated reference graphs and rename/delete sequences replayed into real simulate() methods'},
             {'name': 'evograph', 'path': 'harness/engines/evograph.py', 'serves_properties': ['C09'],
